@@ -96,7 +96,8 @@ def gen_detection(rng):
     return rng.choice(["single keyword", 7])
 
 
-NAMES = ["sel", "sel2", "selx", "filter", "flt_a", "other"]
+# sel / sel_x: prefix and suffix of the patterns sel*l / sel_*_x overlap in them (a pattern matches only with a disjoint prefix and suffix)
+NAMES = ["sel", "sel2", "selx", "filter", "flt_a", "other", "sel_x", "sel_a_x"]
 
 
 def gen_expr(rng, names, depth):
@@ -104,7 +105,7 @@ def gen_expr(rng, names, depth):
     if depth == 0 or r < 0.3:
         if rng.random() < 0.2:
             q = rng.choice(["1", "any", "all"])
-            pat = rng.choice(["them", "sel*", "*", "fl*", "*er", "s*l*"])
+            pat = rng.choice(["them", "sel*", "*", "fl*", "*er", "s*l*", "sel*l", "sel_*_x", "sel_*x"])
             return ["sel", q, pat]
         return ["id", rng.choice(names)]
     if r < 0.5:
@@ -135,10 +136,17 @@ def gen_config(rng):
 def gen_struct(tier, rng):
     n = 1500 if tier == "quick" else 20000
     out = []
-    for _ in range(n):
-        names = rng.sample(NAMES, rng.randint(1, 4))
+    # selector patterns against names in which the pattern's fixed prefix and suffix overlap
+    fixed = [(["sel", "sel_x", "sel_a_x", "other"], ["and", [["id", "other"], ["not", ["sel", q, pat]]]])
+             for q in ("1", "all") for pat in ("sel_*_x", "sel*l", "sel_*x", "s*l*")]
+    for i in range(n):
+        if i < len(fixed):
+            names, c0 = fixed[i]
+        else:
+            names = rng.sample(NAMES, rng.randint(1, 4))
+            c0 = None
         dets = {nm: gen_detection(rng) for nm in names}
-        conds = [gen_expr(rng, names, rng.choice([0, 1, 2, 2, 3]))]
+        conds = [c0 if c0 is not None else gen_expr(rng, names, rng.choice([0, 1, 2, 2, 3]))]
         if rng.random() < 0.15:
             conds.append(gen_expr(rng, names, 2))
         rule = {"title": "t", "logsource": {"category": "c"},
